@@ -39,8 +39,8 @@ def compare_views(kind, G, exp, maxn, nx=True):
         return "number_of_edges"
     if [tuple(e) for e in G.edges()] != edges:
         return "edges"
-    for u in range(0, maxn + 2):
-        for v in range(0, maxn + 2):
+    for u in range(-2, maxn + 2):
+        for v in range(-2, maxn + 2):
             want = (u, v) in eset or (kind == "simple" and (v, u) in eset)
             if bool(G.has_edge(u, v)) != want or ((u, v) in G.edges()) != want:
                 return "has_edge"
@@ -95,6 +95,44 @@ def compare_views(kind, G, exp, maxn, nx=True):
         return "from_networkx_order"
     if [tuple(e) for e in H.edges()] != edges:
         return "from_networkx_edges"
+    # the same abstract graph built in networkx by another history (nodes and edges inserted in another
+    # order, endpoints given the other way round): vertices and edges are what is preserved, not the history
+    for variant in (0, 1, 2):
+        Y = type(X)()
+        nodes = list(X.nodes(data=True))
+        if kind == "bipartite":
+            # the numbering inside each side follows the order of insertion of its nodes (kept); how the two
+            # sides are interleaved is history
+            lft = [x for x in nodes if x[1].get("bipartite") == 0]
+            rgt = [x for x in nodes if x[1].get("bipartite") == 1]
+            if variant == 0:
+                nodes = rgt + lft
+            elif variant == 1:
+                nodes = [x for k in range(max(len(lft), len(rgt))) for x in rgt[k:k + 1] + lft[k:k + 1]]
+        elif variant == 0:
+            nodes = nodes[::-1]
+        elif variant == 1:
+            nodes = nodes[1::2] + nodes[0::2]
+        for x, d in nodes:
+            Y.add_node(x, **d)
+        es = list(X.edges())
+        es = es[::-1] if variant != 1 else es[1::2] + es[0::2]
+        for a, b in es:
+            if kind == "digraph" or variant == 2:
+                Y.add_edge(a, b)
+            else:
+                Y.add_edge(b, a)
+        try:
+            H = type(G).from_networkx(Y)
+        except Exception as e:
+            return "from_networkx_other_history_%s" % type(e).__name__
+        if kind == "bipartite":
+            if (H.left_order(), H.right_order()) != (n, r):
+                return "from_networkx_other_history_order"
+        elif H.number_of_vertices() != n:
+            return "from_networkx_other_history_order"
+        if [tuple(e) for e in H.edges()] != edges:
+            return "from_networkx_other_history_edges"
     return None
 
 
@@ -353,7 +391,7 @@ def main(argv=None):
     # trace validation (code -> spec): what the real random helpers do to a real graph object
     validate_traces(ck, wd, random_helper_traces(ck, 12), 12)
     ck.assumptions += ["vertex counts 0..3 (4 for the model check of simple graphs in the thorough tier), "
-                       "arguments 0..MaxN+1; behaviours of bounded depth"]
+                       "arguments -2..MaxN+1; behaviours of bounded depth"]
     return ck.finish(rule="one case = one TLC behaviour (constructor + sequence of calls with arguments) replayed into the "
                           "real class with all views compared after every call; behaviours are distinct states of the export "
                           "run (exhaustive to the stated depth) plus random walks",
